@@ -6,7 +6,7 @@
 // natively the heap pointer / tag of the value becomes the exit status.
 // (then Coq: C12_fun2core_main_result_refuted; guard of C12_fun2core_preserves_typing_fragment2: the body
 // of main has type i64.)
-// FIXED in /repo by <commit12> (Def::check compares the return type of main with i64, T-003): this file must
+// FIXED in /repo by 5b8c76f (Def::check compares the return type of main with i64, T-003): this file must
 // be REJECTED now; it is kept as a regression input (C15: tag ill; C12: an accepted non-integer main is a violation).
 // Coq: C12_regression_old_check_main_result (the checker before the fix), C12_checked_main_is_integer.
 data Bar { B }
